@@ -363,7 +363,7 @@ pub fn c13(tier: &str) -> i32 {
         &[
             "VACUUM is a no-op in the reference model: every answer after it must equal the answer the model gives without it",
             "in addition to VACUUM at every position of the alphabet, every history without an open session is followed by VACUUM + fresh read of all tables (end-of-history oracle)",
-            "VACUUM with open sessions (documented to abort them) is outside this alphabet",
+            "VACUUM with sessions open is part of the third search: it aborts their transactions; whatever such a session does afterwards must never become visible to anyone (two listed findings mark where the engine fails this)",
             "histories on which a listed known finding's hazard fires are judged only up to the hazard step",
         ],
         "BFS over committed and rolled-back inserts/updates/deletes, table create/drop, VACUUM at any position (repeated), reopen; oracle = step-wise equality with the SI model in which VACUUM changes nothing",
@@ -545,7 +545,8 @@ pub fn c09(tier: &str) -> i32 {
             p.reopen_end = true;
         }));
     }
-    run_searches(
+    let long = c09_long_history(tier);
+    let code = run_searches(
         "C09",
         tier,
         "model_checking",
@@ -553,8 +554,158 @@ pub fn c09(tier: &str) -> i32 {
         &[
             "the model is carried across every close/reopen: all tables, rows, NOT NULL/UNIQUE behaviour (probe statements in the alphabet), invisibility of rolled-back data, and fresh row/object ids (inserts and CREATE TABLE after reopen must not collide with old ones)",
             "every history without an open session is additionally followed by close + reopen (with a different configuration in the second search) + fresh read of all tables",
-            "the >8192-transactions part of the property is covered by a separate long-history run only in the thorough tier",
+            "the >8192-transactions part of the property is covered by one long deterministic history (8 400 transactions quick, 20 000 thorough: committed and rolled-back work, VACUUM every 150, close/reopen every 1 500, contents compared with a map each time) that runs before the searches",
         ],
         "BFS over DML/DDL histories split at arbitrary points by flush, VACUUM and close/reopen; oracle = step-wise equality with the SI model carried across reopen",
-    )
+    );
+    if code == 0 { long } else { code }
+}
+
+/// One long deterministic history with more than 8192 transactions (the aborted-transaction bitmap and the id
+/// counters have to survive that many), committed and rolled-back work, VACUUM every 150 and close/reopen every
+/// 1500 transactions; the visible contents are compared with a map after every VACUUM and every reopen.
+fn c09_long_history(tier: &str) -> i32 {
+    use crate::sqldrv::{Db, Out};
+    use std::collections::BTreeMap;
+    let n: i128 = if tier == "quick" { 8400 } else { 20000 };
+    let mut db = match Db::create("c09long", Cfg::default()) {
+        Ok(d) => d,
+        Err(e) => {
+            eprintln!("MACHINERY-ERROR property=C09: {e}");
+            return 2;
+        }
+    };
+    let mut model: BTreeMap<i128, i128> = BTreeMap::new();
+    let bad = |what: String| {
+        println!("VIOLATION property=C09 replay=none");
+        println!("  long history (deterministic; re-run the check to replay): {what}");
+        1
+    };
+    if db.exec("CREATE TABLE h (k INT, v INT)") != Out::Ddl {
+        return bad("CREATE TABLE h failed".into());
+    }
+    let mut txns = 1u64;
+    let check = |db: &mut Db, model: &BTreeMap<i128, i128>, at: &str| -> Option<String> {
+        let o = db.exec("SELECT * FROM h");
+        let want: Vec<Vec<Val>> = model.iter().map(|(k, v)| vec![i(*k), i(*v)]).collect();
+        if crate::engines::seq::conforms(&Exp::Rows(want.clone()), &o) {
+            None
+        } else {
+            let got_n = if let Out::Rows(r) = &o { r.len() } else { 0 };
+            Some(format!("{at}: table h holds {got_n} rows, expected {} ({})", want.len(), o.show().chars().take(300).collect::<String>()))
+        }
+    };
+    for t in 0..n {
+        let step: Result<(), String> = (|| {
+            match t % 6 {
+                0 | 5 => {
+                    let o = db.exec(&format!("INSERT INTO h VALUES ({t}, {})", t * 2));
+                    if o != Out::Count(1) {
+                        return Err(format!("transaction {txns}: autocommit INSERT of key {t}: {}", o.show()));
+                    }
+                    model.insert(t, t * 2);
+                }
+                1 => {
+                    db.begin(1).map_err(|e| format!("begin: {e}"))?;
+                    let o = db.sexec(1, &format!("INSERT INTO h VALUES ({}, 7)", 1_000_000 + t));
+                    if o != Out::Count(1) {
+                        return Err(format!("transaction {txns}: session INSERT: {}", o.show()));
+                    }
+                    db.rollback(1).map_err(|e| format!("rollback: {e:?}"))?;
+                }
+                2 => {
+                    // delete the key inserted two steps ago (autocommit)
+                    let k = t - 2;
+                    let o = db.exec(&format!("DELETE FROM h WHERE k = {k}"));
+                    let want = if model.remove(&k).is_some() { 1 } else { 0 };
+                    if o != Out::Count(want) {
+                        return Err(format!("transaction {txns}: DELETE of key {k}: {} (expected count={want})", o.show()));
+                    }
+                }
+                3 => {
+                    db.begin(1).map_err(|e| format!("begin: {e}"))?;
+                    let o = db.sexec(1, &format!("INSERT INTO h VALUES ({t}, {})", t * 2));
+                    if o != Out::Count(1) {
+                        return Err(format!("transaction {txns}: session INSERT: {}", o.show()));
+                    }
+                    db.commit(1).map_err(|e| format!("commit: {e:?}"))?;
+                    model.insert(t, t * 2);
+                }
+                _ => {
+                    let k = t - 1;
+                    let o = db.exec(&format!("SELECT * FROM h WHERE k = {k}"));
+                    let want: Vec<Vec<Val>> = model.get(&k).map(|v| vec![vec![i(k), i(*v)]]).unwrap_or_default();
+                    if !crate::engines::seq::conforms(&Exp::Rows(want), &o) {
+                        return Err(format!("transaction {txns}: lookup of key {k}: {}", o.show()));
+                    }
+                }
+            }
+            Ok(())
+        })();
+        txns += 1;
+        if let Err(e) = step {
+            return bad(e);
+        }
+        if t % 150 == 149 {
+            if let Err(e) = db.vacuum() {
+                return bad(format!("VACUUM after {txns} transactions failed: {e:?}"));
+            }
+            txns += 1;
+            if let Some(e) = check(&mut db, &model, &format!("after VACUUM at {txns} transactions")) {
+                return bad(e);
+            }
+            // keep the table small: remove everything but the newest keys
+            if model.len() > 120 {
+                let cut = *model.keys().nth(model.len() - 60).unwrap();
+                let victims: Vec<i128> = model.keys().copied().filter(|k| *k < cut).collect();
+                for k in victims {
+                    let o = db.exec(&format!("DELETE FROM h WHERE k = {k}"));
+                    if o != Out::Count(1) {
+                        return bad(format!("trim: DELETE of key {k}: {}", o.show()));
+                    }
+                    model.remove(&k);
+                    txns += 1;
+                }
+            }
+        }
+        if t % 1500 == 1499 {
+            if let Err(e) = db.reopen(Cfg::default()) {
+                return bad(format!("reopen after {txns} transactions failed: {e}"));
+            }
+            if let Some(e) = check(&mut db, &model, &format!("after reopen at {txns} transactions")) {
+                return bad(e);
+            }
+        }
+    }
+    if let Err(e) = db.reopen(Cfg::default()) {
+        return bad(format!("final reopen after {txns} transactions failed: {e}"));
+    }
+    if let Some(e) = check(&mut db, &model, &format!("after the final reopen ({txns} transactions)")) {
+        return bad(e);
+    }
+    // fresh ids after all that: a rolled-back insert stays invisible across another reopen, a committed one stays
+    if db.begin(1).is_err() || db.sexec(1, "INSERT INTO h VALUES (-1, -1)") != Out::Count(1) || db.rollback(1).is_err() {
+        return bad("probe session after the long history failed".into());
+    }
+    if db.exec("INSERT INTO h VALUES (-2, -2)") != Out::Count(1) {
+        return bad("probe insert after the long history failed".into());
+    }
+    model.insert(-2, -2);
+    if let Err(e) = db.reopen(Cfg::default()) {
+        return bad(format!("reopen after the probes failed: {e}"));
+    }
+    if let Some(e) = check(&mut db, &model, "after the probes and one more reopen") {
+        // listed finding: the aborted-transaction bitmap in page zero tracks ids below 8192 only
+        let id = "KT-aborted-transaction-id-beyond-8192-forgotten-at-reopen";
+        let mut with_ghost = model.clone();
+        with_ghost.insert(-1, -1);
+        if Findings::load().ids_for("C09").contains(id) && check(&mut db, &with_ghost, "").is_none() {
+            crate::report::EXTRA_REOBSERVED.lock().unwrap().push((id.to_string(), format!("long history, {txns} transactions: the rolled-back INSERT (-1,-1) of a transaction with an id above 8192 is visible after close + reopen")));
+            eprintln!("[C09] long history: {txns} transactions, listed finding re-observed at the final probe");
+            return 0;
+        }
+        return bad(e);
+    }
+    eprintln!("[C09] long history: {txns} transactions, {} rows at the end, ok", model.len());
+    0
 }
